@@ -130,7 +130,7 @@ def check_case(case):
     info.update(gap=gap, bound=bound, ratio=gap / bound if bound > 0 else None)
     if gap > bound * (1 + 1e-9) + 1e-12:
         obs = {"best": best, "true_min": fmin, "gap": gap, "bound": bound, "L": L, "K_N": K, "M_before_last_trial": Mb,
-               "M_final": Mf, "r*M_before": r * Mb, "r*M_final": r * Mf, "K_N*L": K * L, "trials": len(g),
+               "M_final": Mf, "r*M_before": None if Mb is None else r * Mb, "r*M_final": r * Mf, "K_N*L": K * L, "trials": len(g),
                "accuracy": float(acc)}
         if Mb is not None and r * Mb < K * L <= r * Mf:
             info["known"].append(dict(oc.violation(PROP, case, "eps-optimal", obs), key=KNOWN_KEY))
